@@ -11,7 +11,7 @@ use serde_json::{json, Value};
 use std::collections::{HashSet, VecDeque};
 use vph::refdec;
 
-pub const RULE: &str = "initial files: stereo 16-bit, 40 PCM frames, with {no, one 0-byte, one 1-byte, one 20-byte, one 100-byte, two (20+7)} padding blocks × {no comment, comment} × {no, one application block} × {seek table, none}; edit alphabet applied through update_file: grow/shrink the comment so that (new metadata size − old) = first padding size + d for every d ∈ −8..+8, shrink the comment by 1..8 bytes, remove the comment, add application blocks of 0/1/100 bytes, remove applications, add a second padding, resize the first padding to 0/1/20, remove all padding, move padding first / reverse block order, no-op, callback returning Err, and invalid lists (two 32×32 icons, two general icons, a 2^24-byte application block, padding pushed past 2^24−1 by shrinking a 16 MiB neighbour); BFS over ALL edit sequences to depth 2 (thorough 3) from every initial file with content de-duplication; per transition: audio bytes from the first frame on are identical and still decode to the same PCM; Ok(false) ⇒ file length unchanged and the blocks read back equal the edited list apart from the first padding's size; Ok(true) ⇒ rebuilt sink == write_blocks(edited list) ++ identical frames and the original is untouched; Err ⇒ original byte-for-byte untouched and nothing written to the sink; plus path-like updates where the `rebuilt` closure truncates the very file being read (what metadata::update(path) does with File::create): 3 file sizes (40 PCM frames, 9 KB and 40 KB of incompressible audio, i.e. beyond any 8 KiB I/O buffer) × {no padding, 100-byte padding} × 8 edits, same oracle on the single aliased file, and the same cases once more on a real scratch file through the path-based metadata::update";
+pub const RULE: &str = "initial files: stereo 16-bit, 40 PCM frames, with {no, one 0-byte, one 1-byte, one 20-byte, one 100-byte, two (20+7)} padding blocks × {no comment, comment} × {no, one application block} × {seek table, none}; edit alphabet applied through update_file: grow/shrink the comment so that (new metadata size − old) = first padding size + d for every d ∈ −8..+8, shrink the comment by 1..8 bytes, remove the comment, add application blocks of 0/1/100 bytes, remove applications, add a second padding, resize the first padding to 0/1/20, remove all padding, move padding first / reverse block order, no-op, callback returning Err, and invalid lists (two 32×32 icons, two general icons, a 2^24-byte application block, padding pushed past 2^24−1 by shrinking a 16 MiB neighbour); BFS over ALL edit sequences to depth 2 (thorough 3) from every initial file with content de-duplication; per transition: audio bytes from the first frame on are identical and still decode to the same PCM; Ok(false) ⇒ file length unchanged and the blocks read back equal the edited list apart from the first padding's size; Ok(true) ⇒ rebuilt sink == write_blocks(edited list) ++ identical frames and the original is untouched; Err ⇒ original byte-for-byte untouched and nothing written to the sink; plus path-like updates where the `rebuilt` closure truncates the very file being read (what metadata::update(path) does with File::create): 3 file sizes (40 PCM frames, 9 KB and 40 KB of incompressible audio, i.e. beyond any 8 KiB I/O buffer) × {no padding, 100-byte padding} × 8 edits, same oracle on the single aliased file, and the same cases once more on a real scratch file through the path-based metadata::update; plus streams embedded behind a 7- / 300-byte foreign prefix with the handle positioned at the stream (12 initial files × 10 edits): the prefix survives and the stream behind it is the edited stream";
 pub const ASSUMPTIONS: &[&str] = &["edits replace the block list with a pre-computed edited list inside the callback (equivalent to in-place mutation since BlockList is plain data)", "write_blocks/BlockList::read themselves are C11's business"];
 pub fn bounds(quick: bool) -> Value {
     json!({"depth": if quick { 2 } else { 3 }, "size_delta": "-8..+8 around exact fit", "initial_files": 48})
@@ -398,6 +398,49 @@ fn alias_step(file: &[u8], edit: &str, on_disk: bool) -> Result<Option<String>, 
     judge_update(file, &after, res, &new_list, audio0, "through a handle that aliases the file")
 }
 
+/// update_file on a handle in which the stream does not start at offset 0 (a foreign prefix precedes it and the handle is
+/// positioned at the stream's first byte): the prefix must survive and the stream behind it must be the edited stream
+fn embedded_step(file: &[u8], edit: &str, prefix: usize) -> Result<Option<String>, (String, String)> {
+    let cur = BlockList::read(file).map_err(|e| ("machinery".to_string(), format!("{e:?}")))?;
+    let new_list = match edited(edit, &cur) {
+        Some(b) => b,
+        None => return Ok(None),
+    };
+    let st0 = refdec::decode(file).map_err(|r| ("machinery-state-undecodable".to_string(), format!("{} {}", r.code, r.msg)))?;
+    let audio0 = &file[st0.first_frame_offset..];
+    let junk: Vec<u8> = (0..prefix).map(|i| 0x30 + (i % 40) as u8).collect();
+    let mut initial = junk.clone();
+    initial.extend_from_slice(file);
+    let mut dev = MemDevice::new(initial.clone(), prefix as u64);
+    let mut sink = MemDevice::new(vec![], 0);
+    let nl = new_list.clone();
+    let res = guarded(|| {
+        let s = &mut sink;
+        update_file::<_, _, flac_codec::Error>(&mut dev, move || Ok(s), move |b: &mut BlockList| {
+            *b = nl;
+            Ok(())
+        })
+    })
+    .map_err(|p| (format!("panic@{}", crate::core::panic_loc(&p)), format!("update_file panics: {p}")))?;
+    if dev.data.len() < prefix || dev.data[..prefix] != junk[..] {
+        return Err(("bytes-before-the-stream-overwritten".into(), format!("the {prefix} bytes in front of the stream were modified by an update that returned {res:?}")));
+    }
+    match &res {
+        Ok(true) => {
+            if dev.data != initial {
+                return Err(("rebuild-modified-original".into(), "update reported as rebuilt but the original was modified as well".into()));
+            }
+            judge_update(file, &sink.data, res, &new_list, audio0, "behind a foreign prefix (rebuilt into the sink)")
+        }
+        _ => {
+            if !sink.data.is_empty() {
+                return Err(("in-place-wrote-to-sink".into(), "update not reported as rebuilt but the sink received data".into()));
+            }
+            judge_update(file, &dev.data[prefix..], res, &new_list, audio0, "behind a foreign prefix")
+        }
+    }
+}
+
 /// the real path-based `metadata::update` on a scratch file below /verif/target/tmp
 fn disk_step(file: &[u8], new_list: &BlockList, audio0: &[u8]) -> Result<Option<String>, (String, String)> {
     let dir = std::path::Path::new("/verif/target/tmp").join(format!("c10-path-{}", std::process::id()));
@@ -512,6 +555,33 @@ pub fn run(ctx: &Ctx, acc: &mut Acc) {
             }
         }
     }
+    // streams embedded behind a foreign prefix (shorter and longer than the metadata)
+    for (name, file) in initial_files() {
+        if !(name.ends_with("-noseek") && (name.starts_with("pad20-") || name.starts_with("nopad-") || name.starts_with("pad100-"))) {
+            continue;
+        }
+        for prefix in [7usize, 300] {
+            for edit in ["fit:0", "fit:-3", "fit:5", "shrink:3", "shrink:100", "app:1", "rm-comment", "noop", "pad2", "rm-pad"] {
+                if !ctx.mine() {
+                    continue;
+                }
+                match embedded_step(&file, edit, prefix) {
+                    Ok(None) => {}
+                    Ok(Some(l)) => {
+                        acc.states += 1;
+                        acc.executions += 1;
+                        acc.transitions += 1;
+                        acc.outcome(format!("embedded:{}:{l}", edit.split(':').next().unwrap()));
+                    }
+                    Err((c, d)) if c == "machinery" => acc.notes.push(format!("machinery: {name} {edit} prefix {prefix}: {d}")),
+                    Err((c, d)) => {
+                        acc.executions += 1;
+                        acc.violation(format!("C10|embedded|{c}"), format!("{name}, edit {edit}, stream behind a {prefix}-byte foreign prefix: {d}"), json!({"kind":"edit-embedded","name":name,"edit":edit,"prefix":prefix}));
+                    }
+                }
+            }
+        }
+    }
     for (name, file, nb) in big_scenarios() {
         if !ctx.mine() {
             continue;
@@ -588,6 +658,12 @@ pub fn replay(v: &Value) -> Option<(bool, String)> {
                 }
             }
             Some((false, log.join("\n")))
+        }
+        "edit-embedded" => {
+            let name = v["name"].as_str()?;
+            let file = initial_files().into_iter().find(|f| f.0 == name)?.1;
+            let r = embedded_step(&file, v["edit"].as_str()?, v["prefix"].as_u64()? as usize);
+            Some((r.is_err(), format!("{r:?}")))
         }
         "edit-alias" => {
             let name = v["name"].as_str()?;
